@@ -130,3 +130,15 @@ M("approx-sweep-limit-degrees", ["C19"], "approximate_arcs_with_cubics counts sl
   ("        sweep_limit = tau * error\n        for s in range(len(self) - 1, -1, -1):\n            segment = self[s]\n            if isinstance(segment, Arc):\n                arc_required = int(ceil(abs(segment.sweep) / sweep_limit))\n                self[s : s + 1] = list(segment.as_cubic_curves(arc_required))",
    "        sweep_limit = tau * error * 4\n        for s in range(len(self) - 1, -1, -1):\n            segment = self[s]\n            if isinstance(segment, Arc):\n                arc_required = int(ceil(abs(segment.sweep) / sweep_limit))\n                self[s : s + 1] = list(segment.as_cubic_curves(arc_required))"))
 M("cubic-ignores-negative-sweep", ["C19"], "cubic chain built from abs(sweep)", ("        t_slice = self.sweep / float(arc_required)\n\n        theta = self.get_rotation()", "        t_slice = abs(self.sweep) / float(arc_required)\n\n        theta = self.get_rotation()"))
+
+# ---- bounding boxes (C08) --------------------------------------------------------------------------------
+M("quad-bbox-closed-interval", ["C08"], "quadratic extremum test uses the y parameter for x", ("        if 0 < t < 1:\n            x_values = [self.start.x, self.end.x, self.point(t).x]", "        if 0.25 < t < 1:\n            x_values = [self.start.x, self.end.x, self.point(t).x]"))
+M("cubic-bbox-one-root", ["C08"], "cubic extrema: second root dropped", ("                if q != 0:\n                    roots.append(qc / q)\n", ""))
+M("arc-bbox-k-range", ["C08"], "arc extremal candidates only for k in -1..1", ("        for k in range(-4, 5):\n            tx = angle_inv(atan_x, k)", "        for k in range(-1, 2):\n            tx = angle_inv(atan_x, k)"))
+M("arc-bbox-atan-sign", ["C08"], "arc x-extremum angle sign", ("            atan_x = atan(-(ry / rx) * tan(phi))", "            atan_x = atan((ry / rx) * tan(phi))"))
+M("arc-bbox-rot0-swapped", ["C08"], "unrotated arcs: candidate angles swapped", ("        elif sin(phi) == 0:\n            atan_x = 0\n            atan_y = tau / 4.0", "        elif sin(phi) == 0:\n            atan_x = tau / 4.0\n            atan_y = 0"))
+M("stroke-delta-when-none", ["C08"], "stroke growth applied although stroke is none", ("            return None  # No bounding box items existed. So no bounding box.\n\n        if (\n            with_stroke\n            and self.stroke_width is not None\n            and not (self.stroke is None or self.stroke.value is None)", "            return None  # No bounding box items existed. So no bounding box.\n\n        if (\n            with_stroke\n            and self.stroke_width is not None\n            and not (self.stroke is None)"))
+M("stroke-delta-full-width", ["C08"], "box grown by the full stroke width", ("                delta = float(self.implicit_stroke_width) / 2.0\n            else:\n                delta = float(self.stroke_width) / 2.0\n        else:\n            delta = 0.0\n\n        return (\n            min(xmins) - delta,\n            min(ymins) - delta,\n            max(xmaxs) + delta,\n            max(ymaxs) + delta,\n        )\n\n    def _init_shape", "                delta = float(self.implicit_stroke_width)\n            else:\n                delta = float(self.stroke_width) / 2.0\n        else:\n            delta = 0.0\n\n        return (\n            min(xmins) - delta,\n            min(ymins) - delta,\n            max(xmaxs) + delta,\n            max(ymaxs) + delta,\n        )\n\n    def _init_shape"))
+M("implicit-stroke-det-no-sqrt", ["C08", "C14"], "implicit stroke width scales by |det| instead of its root", ("                return width * sqrt(abs(det))", "                return width * abs(det)"))
+M("group-bbox-skips-nested", ["C08"], "group union looks at direct children only", ("        return Group.union_bbox(\n            self.select(),", "        return Group.union_bbox(\n            iter(self),"))
+M("subpath-bbox-untransformed-stroke", ["C08"], "Subpath.bbox(transformed=False) ignores the stroke flag", ("        if (\n            with_stroke\n            and self._path.stroke_width is not None", "        if (\n            False\n            and self._path.stroke_width is not None"))
